@@ -88,7 +88,7 @@ class C02(Prop):
                "aioswitcher.api:SwitcherApi.stop", "aioswitcher.device.tools:timedelta_to_hexadecimal_seconds",
                "aioswitcher.device.tools:string_to_hexadecimale_device_name", "aioswitcher.schedule.tools:time_to_hexadecimal_timestamp"]
     min_evaluations = {"quick": 30_000, "thorough": 300_000}
-    budget_s = {"quick": 60, "thorough": 900}
+    budget_s = {"quick": 300, "thorough": 900}
 
     def worker_pyflags(self, shard, nshards=1):
         return ["-O"] if nshards > 1 and shard == nshards - 1 else []   # one worker in an optimised interpreter: argument checks must not be assertions
